@@ -109,6 +109,27 @@ def _valid_circ(circ, n):
     return True
 
 
+def _malformed_calls(n, ctx):
+    """a caller's earlier mistakes in the same process: the synthesis functions are handed tableaux of the same size whose
+    generators do not commute (not stabilizer states; whatever comes back is discarded, exceptions included). What the library
+    answers for valid states afterwards must not depend on it."""
+    import graphiq.backends.stabilizer.functions.stabilizer as st
+    from graphiq.backends.stabilizer.tableau import StabilizerTableau
+    rng = np.random.default_rng([11, n, ctx.evaluations])
+    for rep in range(2):
+        x = rng.integers(0, 2, (n, n))
+        z = rng.integers(0, 2, (n, n))
+        ph = rng.integers(0, 2, n)
+        for f in (lambda tb: st.canonical_form(tb), lambda tb: st.inverse_circuit(tb), lambda tb: st.rref(tb),
+                  lambda tb: [st.tab_row_sum(tb, int(i), int(j)) for i, j in rng.integers(0, n, (4, 2)) if i != j]):
+            try:
+                f(StabilizerTableau([x.copy(), z.copy()], ph.copy()))
+                ctx.count("malformed:calls")
+            except Exception:
+                ctx.count("malformed:calls")
+                ctx.count("malformed:raised")
+
+
 def check_state(a, ctx, full=True):
     from graphiq.backends.stabilizer.functions.stabilizer import inverse_circuit
     from graphiq.backends.stabilizer.functions.rep_conversion import clifford_from_stabilizer
@@ -124,6 +145,8 @@ def check_state(a, ctx, full=True):
     if r.any():
         ctx.count("inverse:with_negative_sign")
     zero = pauli.PTab.zero_state(n)
+    if ctx.evaluations % 5 == 0 and n <= 12:
+        _malformed_calls(n, ctx)
     t = gq.ptab_to_stabilizer_tableau(a)
     try:
         t2, circ = inverse_circuit(t)
